@@ -16,6 +16,6 @@ if 'batch' in spec:
         except Exception as e: out.append(dict(status='error', msg=str(e)))
     print(json.dumps(out, default=str))
 else:
-    r = run_native(mod, spec['so'], lambda N: h.fn(N, h.jobs[spec['jobi']]), spec['inputs'], h.mode)
+    r = run_native(mod, spec['so'], lambda N: h.fn(N, h.jobs[spec['jobi']]), spec['inputs'], h.mode, default_missing=None if spec.get('keep_obs') else 0)
     if not spec.get('keep_obs'): r.pop('observations', None)
     print(json.dumps(r, default=str))
